@@ -8,7 +8,7 @@ use crate::words::*;
 use serde_json::{json, Map, Value};
 use std::collections::HashMap;
 use std::panic::{catch_unwind, AssertUnwindSafe};
-use std::sync::atomic::{AtomicBool, Ordering};
+use std::sync::atomic::{AtomicBool, AtomicUsize, Ordering};
 use std::sync::{Arc, Mutex, OnceLock};
 
 static REG: OnceLock<Registry> = OnceLock::new();
@@ -41,6 +41,25 @@ fn get_u64(op: &Value, k: &str) -> u64 {
     op.get(k)
         .and_then(|v| v.as_u64())
         .unwrap_or_else(|| panic!("schedule op lacks integer field {}: {}", k, op))
+}
+
+/// carries a freshly built generator out of the thread that built it (nothing else refers to it)
+struct SendIt<T>(T);
+unsafe impl<T> Send for SendIt<T> {}
+
+/// the calls made on a source during one constructor: the list itself, or - beyond 4096 calls - its summary
+fn src_log_fields(log: &[(&'static str, usize)], out: &mut Vec<(String, Value)>) {
+    if log.len() <= 4096 {
+        out.push(("src_log".into(), Value::Array(log.iter().map(|(m, n)| json!([m, n])).collect())));
+    } else {
+        out.push(("src_log_n".into(), json!(log.len())));
+        out.push(("src_delivered".into(), json!(log.iter().map(|(_, n)| *n).sum::<usize>())));
+        out.push(("src_failed".into(), json!(log.iter().any(|(m, _)| m.ends_with('!')))));
+        out.push((
+            "src_fill_only".into(),
+            json!(log.iter().all(|(m, _)| *m == "fill_bytes" || *m == "try_fill_bytes!")),
+        ));
+    }
 }
 
 impl Exec {
@@ -180,7 +199,8 @@ impl Exec {
             "src" => {
                 let s = get_u64(op, "s");
                 let bytes = json_bytes(&op["bytes"]);
-                let inner = ByteSource::new(bytes);
+                let mut inner = ByteSource::new(bytes);
+                inner.lead = op.get("lead").and_then(|v| v.as_u64()).unwrap_or(0) as usize;
                 if op.get("fallible").and_then(|v| v.as_bool()).unwrap_or(false) {
                     self.fsrcs.insert(
                         s,
@@ -202,13 +222,20 @@ impl Exec {
                 let kind = op["kind"].as_str().unwrap().to_string();
                 let mut src = self.srcs.remove(&s).expect("schedule error: no source");
                 let before = src.log.len();
-                let r = catch_unwind(AssertUnwindSafe(|| construct(&kind, Ctor::FromRng(&mut src))));
+                // "on_thread": the constructor runs on a fresh std thread (default stack size)
+                let r = if op.get("on_thread").and_then(|v| v.as_bool()).unwrap_or(false) {
+                    std::thread::scope(|sc| {
+                        sc.spawn(|| SendIt(catch_unwind(AssertUnwindSafe(|| construct(&kind, Ctor::FromRng(&mut src))))))
+                            .join()
+                            .map(|r| r.0)
+                            .unwrap_or_else(Err)
+                    })
+                } else {
+                    catch_unwind(AssertUnwindSafe(|| construct(&kind, Ctor::FromRng(&mut src))))
+                };
                 out.push(("src_pos".into(), json!(src.pos)));
                 out.push(("src_calls".into(), json!(src.calls)));
-                out.push((
-                    "src_log".into(),
-                    Value::Array(src.log[before..].iter().map(|(m, n)| json!([m, n])).collect()),
-                ));
+                src_log_fields(&src.log[before..], &mut out);
                 self.srcs.insert(s, src);
                 match r {
                     Ok(b) => self.built(g, b, &mut out),
@@ -225,10 +252,7 @@ impl Exec {
                 out.push(("src_pos".into(), json!(src.inner.pos)));
                 out.push(("src_calls".into(), json!(src.inner.calls)));
                 out.push(("src_failures".into(), json!(src.failures)));
-                out.push((
-                    "src_log".into(),
-                    Value::Array(src.inner.log[before..].iter().map(|(m, n)| json!([m, n])).collect()),
-                ));
+                src_log_fields(&src.inner.log[before..], &mut out);
                 self.fsrcs.insert(s, src);
                 match r {
                     Ok(b) => self.built(g, b, &mut out),
@@ -509,6 +533,18 @@ impl Exec {
                         Some(j) => construct(&kind, Ctor::DeJson(j)),
                         None => Built::Unsupported("no snapshot".into()),
                     }
+                } else if fmt == "embedded" {
+                    // the snapshot as one field of a larger record: (u32, generator, u64) in bincode is the
+                    // generator's own image between the images of the two integers
+                    match &b {
+                        Some(b) => {
+                            let mut rec = crate::dynrng::EMB_BEFORE.to_le_bytes().to_vec();
+                            rec.extend_from_slice(b);
+                            rec.extend_from_slice(&crate::dynrng::EMB_AFTER.to_le_bytes());
+                            construct(&kind, Ctor::DeEmbedded(&rec))
+                        }
+                        None => Built::Unsupported("no snapshot".into()),
+                    }
                 } else {
                     match &b {
                         Some(b) => construct(&kind, Ctor::DeBincode(b)),
@@ -586,7 +622,10 @@ impl Exec {
                             out.push(("set_panic".into(), json!(res.is_err())));
                         }
                     }
-                    Err(e) => out.push(("err".into(), json!(e))),
+                    Err((e, text)) => {
+                        out.push(("err".into(), json!(e)));
+                        out.push(("err_text".into(), json!(text)));
+                    }
                 }
             }
             "set_pool" => {
@@ -705,6 +744,89 @@ impl Exec {
                         }
                     }
                 }
+                if found.is_none() {
+                    // maps of the form x + m(x), x - m(x) or m(x) - x (mod 2^64) with m affine over GF(2) - an XOR
+                    // replaced by word arithmetic.  m is read off the code (65 probes) after an affinity test; pools
+                    // confined to the low 64-k bits whose m-image is also confined to them have sums in a range
+                    // of about 2^(65-k), so that 2^(64-2k) of them (k = 20: 16 million) contain colliding pairs.
+                    // Whatever is found is evaluated on the code itself before it is reported.
+                    type Comb = fn(u64, u64) -> u64;
+                    let forms: [(Comb, Comb); 3] = [
+                        (|x, m| x.wrapping_add(m), |x, z| z.wrapping_sub(x)),
+                        (|x, m| x.wrapping_sub(m), |x, z| x.wrapping_sub(z)),
+                        (|x, m| m.wrapping_sub(x), |x, z| z.wrapping_add(x)),
+                    ];
+                    'forms: for (comb, uncomb) in forms.iter() {
+                        let mut m = |x: u64, j: &mut dyn JitterOps| -> u64 { uncomb(x, f(x, j)) };
+                        let m0 = m(0, j);
+                        let mut r = 0x2545F4914F6CDD1Du64;
+                        let mut nxt = || {
+                            r ^= r << 13;
+                            r ^= r >> 7;
+                            r ^= r << 17;
+                            r
+                        };
+                        let mut affine = true;
+                        for _ in 0..48 {
+                            let (a, b) = (nxt(), nxt());
+                            if m(a ^ b, j) ^ m(a, j) ^ m(b, j) ^ m0 != 0 {
+                                affine = false;
+                                break;
+                            }
+                        }
+                        if !affine {
+                            continue;
+                        }
+                        let cols: Vec<u64> = (0..64).map(|i| m(1u64 << i, j) ^ m0).collect();
+                        let lin = |p: u64| -> u64 { (0..64).fold(0u64, |a, i| if (p >> i) & 1 == 1 { a ^ cols[i] } else { a }) };
+                        for k in [20u32, 19, 21, 18] {
+                            let low = 64 - k;
+                            // kernel of p -> (top k bits of lin(p)) on the pools confined to the low bits
+                            let mut rows: Vec<(u64, u64)> = Vec::new();
+                            let mut kern: Vec<u64> = Vec::new();
+                            for i in 0..low {
+                                let (mut v, mut pre) = (cols[i as usize] >> low, 1u64 << i);
+                                for &(rv, rp) in rows.iter() {
+                                    if v ^ rv < v {
+                                        v ^= rv;
+                                        pre ^= rp;
+                                    }
+                                }
+                                if v != 0 {
+                                    rows.push((v, pre));
+                                    rows.sort_by(|a, b| b.0.cmp(&a.0));
+                                } else {
+                                    kern.push(pre);
+                                }
+                            }
+                            let d = kern.len().min(24);
+                            if d < 8 {
+                                continue;
+                            }
+                            let kl: Vec<u64> = kern.iter().map(|&b| lin(b)).collect();
+                            let mut vals: Vec<(u64, u64)> = Vec::with_capacity(1 << d);
+                            let (mut p, mut mp) = (0u64, m0);
+                            vals.push((comb(p, mp), p));
+                            for n in 1u64..(1u64 << d) {
+                                let b = n.trailing_zeros() as usize; // Gray code: one basis vector changes
+                                p ^= kern[b];
+                                mp ^= kl[b];
+                                vals.push((comb(p, mp), p));
+                            }
+                            vals.sort_unstable();
+                            for w in vals.windows(2) {
+                                if w[0].0 == w[1].0 && w[0].1 != w[1].1 {
+                                    let (a, b) = (w[0].1, w[1].1);
+                                    let (za, zb) = (f(a, j), f(b, j));
+                                    if za == zb {
+                                        found = Some((a, b, za));
+                                        break 'forms;
+                                    }
+                                }
+                            }
+                        }
+                    }
+                }
                 out.push(("tried".into(), json!(xs.len())));
                 if let Some((a, b, z)) = found {
                     out.push(("collision".into(), json!([u64j(a), u64j(b), u64j(z)])));
@@ -798,16 +920,23 @@ impl Exec {
                 // of the seed)
                 let nthreads = if sequential { 1 } else { op.get("threads").and_then(|v| v.as_u64()).unwrap_or(8) as usize };
                 let barrier = Arc::new(std::sync::Barrier::new(nthreads));
+                let lined_up = Arc::new(AtomicUsize::new(0));
                 let seeds = Arc::new(seeds);
                 let hs: Vec<_> = (0..nthreads)
                     .map(|t| {
                         let b = barrier.clone();
+                        let lined_up = lined_up.clone();
                         let k = kind.clone();
                         let seeds = seeds.clone();
                         std::thread::spawn(move || {
                             let mut seen: Vec<Vec<u64>> = vec![Vec::new(); seeds.len()];
                             let mut x = 0xC0FFEEu32.wrapping_add(t as u32 * 7919);
                             b.wait();
+                            // a spinning start line behind the barrier: all threads leave it within nanoseconds
+                            lined_up.fetch_add(1, Ordering::SeqCst);
+                            while lined_up.load(Ordering::SeqCst) < nthreads {
+                                std::hint::spin_loop();
+                            }
                             for n in 0..rounds {
                                 x = x.wrapping_mul(1664525).wrapping_add(1013904223);
                                 // every seed at least once per thread, then at random
